@@ -49,6 +49,10 @@ type Opts struct {
 	ProbeIx int64  // a symbolic index to look up in every list
 	Deep    bool   // recurse into children
 	Label   string
+	// Typed: n is a schema-typed node or the representation of one: optional fields that are not
+	// there read as Absent at type level, and looking up a key that is no field / member is some
+	// error (the typed implementations have their own error types), not necessarily ErrNotExists.
+	Typed bool
 }
 
 func wrongKind(err error) bool {
@@ -61,6 +65,10 @@ func Check(n datamodel.Node, v *refval.V, o Opts) {
 	L := o.Label
 	nd.Assert(n != nil, L+"node is not nil")
 	if n == nil {
+		return
+	}
+	if v.K == refval.Absent {
+		nd.Assert(o.Typed && n.IsAbsent(), L+"an optional field that is not there reads as Absent")
 		return
 	}
 	nd.Assert(n.Kind() == kinds[v.K], L+"Kind")
@@ -180,7 +188,7 @@ func Check(n datamodel.Node, v *refval.V, o Opts) {
 		nd.Assert((err == nil) == in, L+"LookupByIndex succeeds exactly for indices in range")
 		if err != nil {
 			_, ne := err.(datamodel.ErrNotExists)
-			nd.Assert(ne, L+"LookupByIndex out of range is ErrNotExists")
+			nd.Assert(ne || o.Typed, L+"LookupByIndex out of range is ErrNotExists")
 		} else {
 			for k, want := range v.L {
 				if o.ProbeIx == int64(k) {
@@ -229,7 +237,7 @@ func Check(n datamodel.Node, v *refval.V, o Opts) {
 	nd.Assert((err == nil) == present, L+"LookupByString succeeds exactly for the keys inserted")
 	if err != nil {
 		_, ne := err.(datamodel.ErrNotExists)
-		nd.Assert(ne, L+"LookupByString of an absent key is ErrNotExists")
+		nd.Assert(ne || o.Typed, L+"LookupByString of an absent key is ErrNotExists")
 	} else {
 		for k, want := range v.L {
 			if o.Probe == v.Keys[k] {
